@@ -21,7 +21,8 @@ harness explores names that differ only in case with its monitors only (see the 
 the implementation breaks). Go maps whose iteration order can matter are association lists processed
 in list order; the harness hands the snapshot over in the node order the implementation actually used.
 
-Not modelled (see bin/props/C17.json): Raft indexes (Create/ModifyIndex) and the index table, every
+Raft indexes (CreateIndex / ModifyIndex of the rows) are a layer over this model: CV/PeerIdx.lean.
+Not modelled (see bin/props/C17.json): the index table, every
 field of Node / NodeService / HealthCheck beyond one content field each (address, port, status),
 non-typical service kinds (virtual IPs, mesh topology, gateways), sessions, coordinates,
 enterprise partitions / namespaces, and the state store's change-event hook (`catalog_events.go`), which
@@ -487,14 +488,34 @@ def exportedFor (cfg : List ExpEntry) (typical : List String) (peer : String) : 
     else if e.name ≠ "*" then [e.name]
     else typical.filter fun n => decide (n ≠ consulName)
 
-/-- keys of `ExportedServiceList.DiscoChains` before the per-chain target filter: under a wildcard every
-    discovery chain; otherwise an exported name that is a chain or has connect-enabled instances -/
-def exportedChains (cfg : List ExpEntry) (typical chains connect : List String) (peer : String) : List String :=
-  (cfg.flatMap fun e =>
-    if e.name = consulName then []
-    else if peer ∉ e.peers then []
-    else if e.name ≠ "*" then []
-    else chains.filter fun n => decide (n ≠ consulName))
-  ++ (exportedFor cfg typical peer).filter fun n => decide (n ∈ chains ∨ n ∈ connect)
+/-- a discovery chain (service-resolver) of the exporting cluster: its name and where it redirects to (the name
+    itself when it does not redirect) -/
+structure Chain where
+  name   : String
+  target : String
+deriving DecidableEq, Repr
+
+/-- the service the compiled chain of `n` ends at: redirects are followed (the state store rejects cycles;
+    `fuel` bounds the walk) -/
+def chainEnd (chains : List Chain) : Nat → String → String
+  | 0, n => n
+  | fuel + 1, n =>
+    match chains.find? (fun ch => decide (ch.name = n)) with
+    | some ch => if ch.target = n then n else chainEnd chains fuel ch.target
+    | none => n
+
+/-- keys of `ExportedServiceList.DiscoChains`: under a wildcard every discovery chain; otherwise an exported name
+    that is a chain, has connect-enabled instances (sidecar / native) or sits behind a terminating gateway
+    (`populateConnectService`); a chain that ends at the `consul` service is dropped (`populateChainInfo`) -/
+def exportedChains (cfg : List ExpEntry) (typical : List String) (chains : List Chain) (connect tgw : List String)
+    (peer : String) : List String :=
+  ((cfg.flatMap fun e =>
+      if e.name = consulName then []
+      else if peer ∉ e.peers then []
+      else if e.name ≠ "*" then []
+      else (chains.map (·.name)).filter fun n => decide (n ≠ consulName))
+    ++ (exportedFor cfg typical peer).filter fun n =>
+         decide (n ∈ chains.map (·.name) ∨ n ∈ connect ∨ n ∈ tgw)).filter fun n =>
+    !decide (chainEnd chains (chains.length + 1) n = consulName)
 
 end CV.Peer
